@@ -1,5 +1,6 @@
 SPECIFICATION ISpec
 CONSTANTS
+  BigOnly = FALSE
   N = 3
   MaxAccounts = 3
   MaxOps = 3
